@@ -26,6 +26,8 @@ struct Desc {
     pltrels: Vec<Rel>, dynrels: Vec<Rel>,
     needed: Vec<String>,
     dyn_seg: Option<usize>,
+    /// MIPS: (DT_MIPS_LOCAL_GOTNO, DT_MIPS_GOTSYM, initial GOT words); DT_MIPS_SYMTABNO = dynsyms.len()
+    mips: Option<(u64, u64, Vec<u32>)>,
 }
 
 struct W { big: bool, is64: bool, b: Vec<u8> }
@@ -81,6 +83,9 @@ fn dyn_blob(d: &Desc, va: u64) -> (Vec<u8>, u64, u64, u64, u64) {
     for r in &d.pltrels { put_rel(&mut w, r); }
     let reloff = w.b.len() as u64;
     for r in &d.dynrels { put_rel(&mut w, r); }
+    while w.b.len() % 4 != 0 { w.b.push(0); }
+    let gotoff = w.b.len() as u64;
+    if let Some((_, _, got)) = &d.mips { for g in got { w.u32(*g); } }
     let dynoff = w.b.len() as u64;
     let mut dy: Vec<(u64, u64)> = vec![];
     for (k, _) in d.needed.iter().enumerate() { dy.push((1, offs[nsyms + k] as u64)); }
@@ -97,6 +102,12 @@ fn dyn_blob(d: &Desc, va: u64) -> (Vec<u8>, u64, u64, u64, u64) {
     if !d.dynrels.is_empty() {
         if rela { dy.push((7, va + reloff)); dy.push((8, d.dynrels.len() as u64 * relent)); dy.push((9, relent)); }
         else { dy.push((17, va + reloff)); dy.push((18, d.dynrels.len() as u64 * relent)); dy.push((19, relent)); }
+    }
+    if let Some((lg, gs, _)) = &d.mips {
+        dy.push((3, va + gotoff));                    // DT_PLTGOT
+        dy.push((0x7000_000a, *lg));                  // DT_MIPS_LOCAL_GOTNO
+        dy.push((0x7000_0013, *gs));                  // DT_MIPS_GOTSYM
+        dy.push((0x7000_0011, nsyms as u64));         // DT_MIPS_SYMTABNO
     }
     dy.push((0, 0));
     for (t, v) in &dy { w.word(*t); w.word(*v); }
@@ -192,8 +203,9 @@ fn rand_name(r: &mut Rng, pool: &[&str]) -> String {
 }
 
 /// random single object; `lib` = it exports function symbols (shared object)
-fn gen_desc(r: &mut Rng, force386: bool) -> Desc {
-    let (machine, is64, big): (u16, bool, bool) = if force386 { (3, false, false) } else {
+fn gen_desc(r: &mut Rng, force: Option<(u16, bool, bool)>) -> Desc {
+    let force386 = force.is_some();
+    let (machine, is64, big): (u16, bool, bool) = if let Some(f) = force { f } else {
         match r.below(20) {
             0..=3 => (3, false, false),
             4..=6 => (62, true, false),
@@ -240,7 +252,7 @@ fn gen_desc(r: &mut Rng, force386: bool) -> Desc {
         v
     };
     let syms = if r.chance(1, 6) { vec![] } else { let n = r.range(0, 6) as usize; gen_syms(r, n, entry, &addr_in) };
-    let mut d = Desc { is64, big, machine, etype: if r.chance(1, 2) { 2 } else { 3 }, entry, segs, syms, dynsyms: vec![], pltrels: vec![], dynrels: vec![], needed: vec![], dyn_seg: None };
+    let mut d = Desc { is64, big, machine, etype: if r.chance(1, 2) { 2 } else { 3 }, entry, segs, syms, dynsyms: vec![], pltrels: vec![], dynrels: vec![], needed: vec![], dyn_seg: None, mips: None };
     if r.chance(3, 5) || force386 {
         // dynamic section inside a dedicated RW PT_LOAD segment placed first
         let n = r.range(1, 6) as usize;
@@ -300,11 +312,12 @@ fn dump_loader(l: &dyn Loader) -> Dump {
 fn gen_case(seed: u64, idx: u64, dir: &str) -> Case {
     let mut r = Rng::for_case(seed, idx);
     let r = &mut r;
-    let linked = r.chance(1, 5);
+    let link_kind = match r.below(10) { 0 => 1, 1 => 2, _ => 0 };   // 0 single object, 1 x86 link, 2 MIPS link
+    let linked = link_kind != 0;
     let base: u64 = match r.below(8) { 0 => 0, 1 | 2 => 0x1000, 3 | 4 => 0x4000_0000, _ => (r.below(0x7fff_0000) & !0xf) + r.below(2) };
     let mut tags: Vec<String> = vec![];
     if !linked {
-        let mut d = gen_desc(r, false);
+        let mut d = gen_desc(r, None);
         let bytes = write_elf(&mut d, r);
         let path = format!("{}/case_{}.elf", dir, idx);
         std::fs::write(&path, &bytes).unwrap();
@@ -341,25 +354,42 @@ fn gen_case(seed: u64, idx: u64, dir: &str) -> Case {
             d.segs.iter().map(|s| format!("t{} va0x{:x} off0x{:x} fsz{} msz{} fl{:x}", s.ptype, s.vaddr, s.offset, s.filesz, s.memsz, s.flags)).collect::<Vec<_>>().join("; "),
             d.dynsyms.len(), d.syms.len(), d.pltrels.len(), users, txt);
         Case { coq: coq.clone(), descr, tags, nontrivial: ok && base != 0, key: coq }
-    } else {
-        // main object + one shared object through ElfLinker (x86 only: the only relocations besides MIPS)
+    } else if link_kind == 1 {
+        // main object + one shared object through ElfLinker, x86 relocations
         let sub = format!("{}/link_{}", dir, idx);
         std::fs::create_dir_all(&sub).unwrap();
-        let mut lib = gen_desc(r, true);
-        lib.etype = 3;
-        // the library defines global functions f0..fk inside its first plain PT_LOAD segment
-        let nexp = r.range(1, 3);
-        let (lva, lms) = lib.segs.iter().filter(|s| s.ptype == PT_LOAD).map(|s| (s.vaddr, s.memsz)).last().unwrap();
-        lib.dynsyms = vec![Sym { name: String::new(), value: 0, shndx: 0, bind: 0, typ: 0 }];
-        for k in 0..nexp { lib.dynsyms.push(Sym { name: format!("f{}", k), value: lva + r.below(lms.max(1)).max(1), shndx: 1, bind: 1, typ: 2 }); }
-        lib.pltrels.clear(); lib.dynrels.clear(); lib.needed.clear();
-        let lib_bytes = write_elf(&mut lib, r);
-        std::fs::write(format!("{}/libx.so", sub), &lib_bytes).unwrap();
-        let mut main = gen_desc(r, true);
+        // one or two libraries (DT_NEEDED order libx.so, liby.so; bases 0x42000000, 0x44000000), exporting f*/h*
+        let nlibs = if r.chance(1, 3) { 2 } else { 1 };
+        // just_interpreter: only the PT_INTERP object (/ld.so, at 0x40000000) is loaded; the DT_NEEDED library does not even exist
+        let interp = nlibs == 1 && r.chance(1, 3);
+        let names = if interp { ["ld.so", ""] } else { ["libx.so", "liby.so"] };
+        let pref = ["f", "h"];
+        let mut libs: Vec<(Desc, Vec<u8>)> = vec![];
+        let mut wanted: Vec<String> = vec![];
+        for li in 0..nlibs {
+            let mut lib = gen_desc(r, Some((3, false, false)));
+            lib.etype = 3;
+            let nexp = r.range(1, 3);
+            let (lva, lms) = lib.segs.iter().filter(|s| s.ptype == PT_LOAD).map(|s| (s.vaddr, s.memsz)).last().unwrap();
+            lib.dynsyms = vec![Sym { name: String::new(), value: 0, shndx: 0, bind: 0, typ: 0 }];
+            for k in 0..nexp {
+                // the second library sometimes also defines f0: the first definition (libx.so) must win
+                let nm = if li == 1 && k == 0 && r.chance(1, 3) { "f0".to_string() } else { format!("{}{}", pref[li], k) };
+                lib.dynsyms.push(Sym { name: nm.clone(), value: lva + r.below(lms.max(1)).max(1), shndx: 1, bind: 1, typ: 2 });
+                if !wanted.contains(&nm) { wanted.push(nm); }
+            }
+            lib.pltrels.clear(); lib.dynrels.clear(); lib.needed.clear();
+            let bytes = write_elf(&mut lib, r);
+            std::fs::write(format!("{}/{}", sub, names[li]), &bytes).unwrap();
+            libs.push((lib, bytes));
+        }
+        let nexp = wanted.len() as u64;
+        let mut main = gen_desc(r, Some((3, false, false)));
         main.etype = 2;
-        main.needed = vec!["libx.so".into()];
+        main.needed = if interp { vec!["libx.so".to_string()] } else { names[..nlibs].iter().map(|s| s.to_string()).collect() };
+        if interp { main.segs.push(Seg { ptype: 3, flags: 4, vaddr: 0, filesz: 7, memsz: 7, align: 1, data: b"/ld.so\0".to_vec(), offset: 0 }); }
         main.dynsyms = vec![Sym { name: String::new(), value: 0, shndx: 0, bind: 0, typ: 0 }];
-        for k in 0..nexp { main.dynsyms.push(Sym { name: format!("f{}", k), value: 0, shndx: 0, bind: 1, typ: 2 }); }
+        for nm in &wanted { main.dynsyms.push(Sym { name: nm.clone(), value: 0, shndx: 0, bind: 1, typ: 2 }); }
         // a GOT: one 4-byte slot per relocation at the end of the dynamic segment's extra data
         let nrel = r.range(1, 4);
         main.segs[0].data = vec![0x11; (nrel * 4 + 8) as usize];
@@ -375,23 +405,104 @@ fn gen_case(seed: u64, idx: u64, dir: &str) -> Case {
         let main_bytes = write_elf(&mut main, r);
         let mpath = format!("{}/main", sub);
         std::fs::write(&mpath, &main_bytes).unwrap();
-        tags.push("linked:x86".into());
-        let lk = observe(|| ElfLinkerBuilder::new(mpath.clone().into()).ld_paths(Some(vec![sub.clone()])).link());
+        tags.push(if interp { "linked:x86-just-interpreter".to_string() } else { format!("linked:x86-{}lib", nlibs) });
+        let lk = observe(|| ElfLinkerBuilder::new(mpath.clone().into()).just_interpreter(interp).ld_paths(Some(vec![sub.clone()])).link());
         let (coq, txt) = match &lk {
             Obs::Ok(l) => {
                 let dl = dump_loader(l);
                 let m = Elf::from_file_with_base_address(&mpath, 0).unwrap();
-                let lb = Elf::from_file_with_base_address(format!("{}/libx.so", sub), 0x4200_0000).unwrap();
                 let dyr = |e: &Elf| coq_list(e.elf().dynrels.iter().map(|r| format!("mkrel {} {} {}", r.r_offset, r.r_sym, r.r_type)));
-                (format!("KLink {} {} {} {} (Ok {})", parsed_view(&m, &main_bytes, &[]), dyr(&m), parsed_view(&lb, &lib_bytes, &[]), dyr(&lb), dl.coq), dl.txt)
+                let lp: Vec<(String, String)> = (0..nlibs).map(|li| {
+                    let lb = Elf::from_file_with_base_address(format!("{}/{}", sub, names[li]), if interp { 0x4000_0000 } else { 0x4200_0000 + 0x0200_0000 * li as u64 }).unwrap();
+                    (parsed_view(&lb, &libs[li].1, &[]), dyr(&lb))
+                }).collect();
+                let lv: Vec<String> = lp.iter().map(|(a, b)| format!("({}, {})", a, b)).collect();
+                if interp { (format!("KLinkI {} {} {} (Ok {})", parsed_view(&m, &main_bytes, &[]), dyr(&m), format!("{} {}", lp[0].0, lp[0].1), dl.coq), dl.txt) }
+                else { (format!("KLinkN {} {} {} (Ok {})", parsed_view(&m, &main_bytes, &[]), dyr(&m), coq_list(lv), dl.coq), dl.txt) }
             }
-            o => (format!("KLink (mkelf 3 false 0 [] \"\" [] [] [] []) [] (mkelf 3 false 0 [] \"\" [] [] [] []) [] {}", match o { Obs::Err(k) => format!("(Err {})", k), _ => "Panic".into() }), format!("link => {}", o.kind())),
+            o => (format!("KLinkN (mkelf 3 false 0 [] \"\" [] [] [] []) [] [] {}", match o { Obs::Err(k) => format!("(Err {})", k), _ => "Panic".into() }), format!("link => {}", o.kind())),
         };
         tags.push(format!("link:{}", lk.kind()));
         let _ = std::fs::remove_dir_all(&sub);
-        let descr = format!("ElfLinker main(needed libx.so, relocs [{}]) + libx.so(exports [{}]) at 0x42000000; {}",
+        let descr = format!("ElfLinker main(needed {} libraries, relocs [{}]) + exports [{}] at 0x42000000, 0x44000000; {}", nlibs,
             main.pltrels.iter().map(|x| format!("t{} off0x{:x} sym{}", x.typ, x.offset, x.sym)).collect::<Vec<_>>().join("; "),
-            lib.dynsyms.iter().skip(1).map(|s| format!("{}=0x{:x}", s.name, s.value)).collect::<Vec<_>>().join(" "), txt);
+            libs.iter().map(|(l, _)| l.dynsyms.iter().skip(1).map(|s| format!("{}=0x{:x}", s.name, s.value)).collect::<Vec<_>>().join(" ")).collect::<Vec<_>>().join(" | "), txt);
+        Case { coq: coq.clone(), descr, tags, nontrivial: true, key: coq }
+    } else {
+        // MIPS main + one shared object through ElfLinker (relocations_mips): GOT with local and global entries,
+        // R_MIPS_REL32 relocations
+        let sub = format!("{}/mlink_{}", dir, idx);
+        std::fs::create_dir_all(&sub).unwrap();
+        let big = r.chance(1, 2);
+        let null = Sym { name: String::new(), value: 0, shndx: 0, bind: 0, typ: 0 };
+        let word = |r: &mut Rng| -> u32 { r.below(0x1000) as u32 };
+        // ---- library: local symbol(s), exported functions f0.., optionally an undefined reference to main's g0
+        let mut lib = gen_desc(r, Some((8, false, big)));
+        lib.etype = 3;
+        let nexp = r.range(1, 3);
+        let (lva, lms) = lib.segs.iter().filter(|s| s.ptype == PT_LOAD).map(|s| (s.vaddr, s.memsz)).last().unwrap();
+        let nloc = r.below(2);
+        lib.dynsyms = vec![null.clone()];
+        for k in 0..nloc { lib.dynsyms.push(Sym { name: format!("loc{}", k), value: lva + r.below(lms.max(1)).max(1), shndx: 1, bind: 0, typ: 2 }); }
+        let lgs = lib.dynsyms.len() as u64;
+        for k in 0..nexp { lib.dynsyms.push(Sym { name: format!("f{}", k), value: lva + r.below(lms.max(1)).max(1), shndx: 1, bind: 1, typ: 2 }); }
+        let lib_uses_g0 = r.chance(1, 2);
+        if lib_uses_g0 { lib.dynsyms.push(Sym { name: "g0".into(), value: 0, shndx: 0, bind: 1, typ: 2 }); }
+        let llg = r.range(2, 4);
+        let mut lgot: Vec<u32> = (0..llg).map(|_| word(r)).collect();
+        for s in lib.dynsyms.iter().skip(lgs as usize) { lgot.push(if s.shndx == 0 { 0 } else { s.value as u32 }); }
+        lib.mips = Some((llg, lgs, lgot));
+        lib.pltrels.clear(); lib.needed.clear();
+        let nlrel = r.below(3);
+        lib.dynrels = (0..nlrel).map(|_| Rel { offset: 0, sym: 0, typ: 3 }).collect();
+        lib.segs[0].data = (0..(nlrel * 4 + 8)).map(|_| 0u8).collect();
+        let lblob = dyn_blob(&lib, lib.segs[0].vaddr).0.len() as u64;
+        for (k, rel) in lib.dynrels.iter_mut().enumerate() { rel.offset = lib.segs[0].vaddr + lblob + 4 * k as u64; }
+        let lib_bytes = write_elf(&mut lib, r);
+        std::fs::write(format!("{}/libx.so", sub), &lib_bytes).unwrap();
+        // ---- main: defines g0, references f0..
+        let mut main = gen_desc(r, Some((8, false, big)));
+        main.etype = 2;
+        main.needed = vec!["libx.so".into()];
+        let (mva, mms) = main.segs.iter().filter(|s| s.ptype == PT_LOAD).map(|s| (s.vaddr, s.memsz)).last().unwrap();
+        main.dynsyms = vec![null.clone(), Sym { name: "g0".into(), value: mva + r.below(mms.max(1)).max(1), shndx: 1, bind: 1, typ: 2 }];
+        let mgs = if r.chance(1, 2) { 1 } else { 2 };
+        for k in 0..nexp { main.dynsyms.push(Sym { name: format!("f{}", k), value: 0, shndx: 0, bind: 1, typ: 2 }); }
+        let mlg = r.range(2, 4);
+        let mut mgot: Vec<u32> = (0..mlg).map(|_| word(r)).collect();
+        for s in main.dynsyms.iter().skip(mgs as usize) { mgot.push(if s.shndx == 0 { 0 } else { s.value as u32 }); }
+        main.mips = Some((mlg, mgs, mgot));
+        main.pltrels.clear();
+        let nmrel = r.range(1, 3);
+        // a R_MIPS_REL32 whose r_sym names a symbol (before 90896ec it got only the object's base)
+        let named = r.chance(1, 5);
+        main.dynrels = (0..nmrel).map(|k| Rel { offset: 0, sym: if named && k == 0 { 2 } else { 0 }, typ: 3 }).collect();
+        main.segs[0].data = (0..(nmrel * 4 + 8)).map(|_| 0u8).collect();
+        let mblob = dyn_blob(&main, main.segs[0].vaddr).0.len() as u64;
+        for (k, rel) in main.dynrels.iter_mut().enumerate() { rel.offset = main.segs[0].vaddr + mblob + 4 * k as u64; }
+        let main_bytes = write_elf(&mut main, r);
+        let mpath = format!("{}/main", sub);
+        std::fs::write(&mpath, &main_bytes).unwrap();
+        tags.push(format!("linked:mips{}", if big { "be" } else { "le" }));
+        if named { tags.push("has:mips-rel32-names-symbol".into()); }
+        let lk = observe(|| ElfLinkerBuilder::new(mpath.clone().into()).ld_paths(Some(vec![sub.clone()])).link());
+        let m = Elf::from_file_with_base_address(&mpath, 0).unwrap();
+        let lb = Elf::from_file_with_base_address(format!("{}/libx.so", sub), 0x4200_0000).unwrap();
+        let dyr = |e: &Elf| coq_list(e.elf().dynrels.iter().map(|r| format!("mkrel {} {} {}", r.r_offset, r.r_sym, r.r_type)));
+        let dyn_ = |e: &Elf| coq_list(e.elf().dynamic.map(|d| d.dyns.iter().map(|x| format!("({}, {})", x.d_tag, x.d_val)).collect::<Vec<_>>()).unwrap_or_default());
+        let (res, txt) = match &lk {
+            Obs::Ok(l) => { let dl = dump_loader(l); (format!("(Ok {})", dl.coq), dl.txt) }
+            Obs::Err(k) => (format!("(Err {})", k), format!("link => {}", k)),
+            Obs::Panic => ("Panic".to_string(), "link => panic".to_string()),
+        };
+        let coq = format!("KLinkM {} {} {} {} {} {} {}", parsed_view(&m, &main_bytes, &[]), dyn_(&m), dyr(&m), parsed_view(&lb, &lib_bytes, &[]), dyn_(&lb), dyr(&lb), res);
+        tags.push(format!("link:{}", lk.kind()));
+        let _ = std::fs::remove_dir_all(&sub);
+        let descr = format!("ElfLinker MIPS {} main(dynsyms [{}], gotsym {}, local_gotno {}, REL32 [{}]) + libx.so(dynsyms [{}], gotsym {}, local_gotno {}, REL32 x{}) at 0x42000000; {}",
+            if big { "BE" } else { "LE" },
+            main.dynsyms.iter().skip(1).map(|s| format!("{}=0x{:x}/{}", s.name, s.value, s.shndx)).collect::<Vec<_>>().join(" "), mgs, mlg,
+            main.dynrels.iter().map(|x| format!("off0x{:x} sym{}", x.offset, x.sym)).collect::<Vec<_>>().join("; "),
+            lib.dynsyms.iter().skip(1).map(|s| format!("{}=0x{:x}/{}", s.name, s.value, s.shndx)).collect::<Vec<_>>().join(" "), lgs, llg, nlrel, txt);
         Case { coq: coq.clone(), descr, tags, nontrivial: true, key: coq }
     }
 }
